@@ -106,9 +106,10 @@ size_t g_w1, g_w2;            /* witness slot indices, g_w1 < g_w2 < 256 */
 unsigned g_pin_calls;         /* calls of processAndInsertNode */
 int g_pin_res;                /* its last result */
 KSI_TreeNode *g_pin_node;     /* the node handed to it */
-long g_pin_delta;             /* funnel blocks it allocated and kept (joined nodes), >= 0; 0 on failure */
 unsigned g_chl_calls;         /* calls of calculateHighestLevel */
 unsigned g_chl_result;        /* its last result */
 unsigned g_lwo_calls;         /* calls of levelWithOverhead */
 KSI_TreeLeafHandle *g_leaf_out;   /* out-parameter object of addLeaf harnesses */
+unsigned g_cbl_calls;         /* calls of leaf processors made through the model processor list */
+KSI_DataHash g_proc_hash;     /* hash object the model leaf processors put into the nodes they make */
 #endif
